@@ -18,7 +18,7 @@ pub fn check(tier: Tier) -> Check {
         also_rel: false,
         property: "C12",
         level: "exploration",
-        rule: "all request kinds (publish QoS 0/1/2 with payload 0..max and topic 1..3 bytes, subscribe / unsubscribe with 1-2 filters and 0-1 user property, ping, disconnect with / without reason string) x M in {L-1, L, L+1, 1, 2^32-1, absent} x Receive Maximum in {1, absent} x CONNACK {bare, carrying six other properties around them} x connection flavour {bare, every CONNECT option set incl. the client's own Maximum Packet Size 16 and Session Present = 1, a CONNACK received through authorize()}, L computed by the reference encoder; followed by a QoS 1 publish, its PUBACK, an accepted subscribe, and an inbound PUBLISH naming the rejected subscription's would-be identifier; non-trivial = a request was refused for size".into(),
+        rule: "all request kinds (publish QoS 0/1/2 with payload 0..max and topic 1..3 bytes, subscribe / unsubscribe with 1-2 filters and 0-1 user property, ping, disconnect with / without reason string) x M in {L-1, L, L+1, 1, 2^32-1, absent} x Receive Maximum in {1, absent} x CONNACK {bare, carrying six other properties around them} x connection flavour {bare, every CONNECT option set incl. the client's own Maximum Packet Size 16 and Session Present = 1, a CONNACK received through authorize()}, L computed by the reference encoder; issued on an idle client and with a ping, a subscribe and an unsubscribe of other callers outstanding (their acknowledgements must still reach them); followed by a QoS 1 publish, its PUBACK, an accepted subscribe, and an inbound PUBLISH naming the rejected subscription's would-be identifier; non-trivial = a request was refused for size".into(),
         assumptions: vec![],
         parts,
     }
@@ -109,9 +109,22 @@ pub fn scenario(name: &str, params: &Value) -> Scenario {
         // the client's OWN maximum packet size / receive maximum (CONNECT) and Session Present must not matter
         sys.bring_up_fl(props, flavour);
         sys.events.push(format!("L={} M={:?} R1={}", l, m, r1));
+        // other callers' requests are outstanding while the request under test is handled
+        let busy = chz.choose(2) == 1;
+        let mut first = 0usize;
+        if busy {
+            sys.apply(Ev::Start(OpSpec::Ping));
+            sys.apply(Ev::Start(OpSpec::Subscribe(SubscribeSpec::simple("b"))));
+            sys.apply(Ev::Start(OpSpec::Unsubscribe(UnsubscribeSpec::simple("b"))));
+            first = 3;
+            if sys.dead {
+                return sys.report(ex, &[]);
+            }
+        }
+        let hits_before = sys.m.hits.contains(&"max-packet-size-refusal");
         sys.apply(Ev::Start(spec.clone()));
         let refused = m.map(|m| l > m as u64).unwrap_or(false);
-        if !sys.dead && refused != sys.m.hits.contains(&"max-packet-size-refusal") {
+        if !sys.dead && !hits_before && refused != sys.m.hits.contains(&"max-packet-size-refusal") {
             panic!("harness: model disagrees with the scenario about the refusal");
         }
         let rejected_sub_id = if refused && kind == 3 {
@@ -122,11 +135,22 @@ pub fn scenario(name: &str, params: &Value) -> Scenario {
         if sys.m.ctx == CtxSt::Running {
             // complete the request if it went out
             for _ in 0..2 {
-                if let Some(p) = sys.ack_for(0, 0, "") {
+                if let Some(p) = sys.ack_for(first, 0, "") {
                     sys.apply(Ev::Deliver(p));
                 }
             }
-            if kind == 5 && !refused && !sys.dead {
+            // the other callers' acknowledgements arrive and must reach them
+            if busy && !sys.dead {
+                if !sys.m.pings.is_empty() {
+                    sys.apply(Ev::Deliver(SPacket::Pingresp));
+                }
+                for i in 1..3 {
+                    if let Some(p) = sys.ack_for(i, 0, "") {
+                        sys.apply(Ev::Deliver(p));
+                    }
+                }
+            }
+            if kind == 5 && !refused && !sys.dead && !sys.m.pings.is_empty() {
                 sys.apply(Ev::Deliver(SPacket::Pingresp));
             }
             // follow-up: a QoS 1 publish must be accepted (if it fits) although R may be 1
